@@ -46,6 +46,9 @@ CHECKS = {
     "C15": ("Hypothesis-generated image shapes / bin sizes / chunkings / compute flags / loaders vs block-sum reference; exact-class subtomograms compared with block sums of b-times-larger subtomograms",
             "Generated-input exploration with a reference oracle (binned image == block sums, scale and position bookkeeping, parent untouched, lazy == eager) and an exact metamorphic relation between binned and original subtomograms on the binned grid.",
             "exact class: identity orientation and voxel-aligned positions in both loaders; compute flag not asserted for b == 1 (binning(1) is a copy)", "4/C15"),
+    "C17": ("Hypothesis-generated image pairs / shapes / shell widths vs a float64 per-shell reference; symmetry and rescaling metamorphic relations; loader-level tables recomputed from the returned half-maps and masks",
+            "Generated-input exploration with a reference-model oracle per shell, metamorphic relations (symmetry, positive rescaling, self-correlation = 1) and a differential oracle at loader level (table == reference applied to the returned half-maps x mask; half-maps == average_split - mean; reproducibility; column names).",
+            "shells below the single-precision noise floor and shells touched by exact boundary ties are skipped and counted", "4/C17"),
 }
 
 NOT_YET = {}
